@@ -67,6 +67,32 @@ def law(law, runner, vals, **kw):
         if kd != "value" or bool(r) != exp:
             return fail(f"expected {exp}, got {kd} {r!r}")
         return True, "ok"
+    if law == "in-self-double":
+        D = ct.DoubleType
+        x, y = D(vals["x"]), D(vals["y2"])
+        b = {"x": x, "y2": y, "l": ct.ListType([x]), "l2": ct.ListType([y, x])}
+        xx, xy = (vals["x"] == vals["x"]), (vals["x"] == vals["y2"])
+        for src, exp in (("x in l", xx), ("x in [x]", xx), ("l.exists(y, y == x)", xx), ("[x].map(y, y in [y])[0]", xx),
+                         ("x in [y2, x]", xx or xy), ("x in l2", xx or xy), ("l2.exists(y, y == x)", xx or xy)):
+            kd, r = _run(src, runner, dict(b))
+            if kd != "value" or bool(r) != exp:
+                return fail(f"`{src}`: expected {exp}, got {kd} {r!r}")
+        return True, "ok"
+    if law == "nested-macro":
+        n = kw["n"]
+        l, m = lst("l", n), lst("m", 2)
+        b = {"l": cel_list(l), "m": cel_list(m)}
+        for src, exp in (("l.map(x, m.map(y, x + y))", [[x + y for y in m] for x in l]),
+                         ("l.filter(x, m.exists(y, y == x))", [x for x in l if x in m]),
+                         ("l.exists_one(x, m.all(y, y != x))", sum(1 for x in l if x not in m) == 1),
+                         ("l.map(x, m.filter(y, y > x).map(z, z - x))", [[y - x for y in m if y > x] for x in l])):
+            kd, r = _run(src, runner, dict(b))
+            if kd != "value":
+                return fail(f"`{src}`: {kd} {r!r}")
+            got = bool(r) if isinstance(exp, bool) else [([int(v) for v in row] if isinstance(row, list) else int(row)) for row in r]
+            if got != exp:
+                return fail(f"`{src}`: expected {exp}, got {got}")
+        return True, "ok"
     if law == "in-exists":
         n, k = kw["n"], vals["k"]
         l = lst("l", n)
